@@ -775,7 +775,7 @@ def stream_var(run, cases, outs):
             continue
         env = '[%s]' % '; '.join('(%s, %s)' % (slit(k), toks_coq(v)) for k, v in o['env'])
         for value, it in zip(c['values'], o['items']):
-            if it['code'] != 0:
+            if it['code'] not in (0, 4):
                 sig = 'crash:%s' % it['site']
                 if sig not in reported:
                     reported.add(sig)
@@ -926,14 +926,7 @@ def sh_case(rng, P):
             'gsb': ('%s %s %s' % (g, sh_, b), (g, sh_, b)), 'bgs': ('%s %s %s' % (b, g, sh_), (g, sh_, b)),
             'auto': ('auto', ('1', '1', 'auto')), 'g0': ('%s 0' % g, (g, '0', '0px')), 'zero': ('0', ('0', '1', '0px')),
         }[form]
-        # F132: a unitless zero not written `0` is taken for the basis - control: the same shorthand with `0`
-        ctl = None
-        if (g0, s0) != (g, sh_):
-            ctl = 'flex:' + {'g': g0, 'gs': '%s %s' % (g0, s0), 'gb': '%s %s' % (g0, b), 'bg': '%s %s' % (b, g0),
-                             'gsb': '%s %s %s' % (g0, s0, b), 'bgs': '%s %s %s' % (b, g0, s0), 'g0': '%s 0' % g0
-                             }.get(form, text)
-        return (fam, 'flex', 'flex:' + text, list(zip(['flex-grow', 'flex-shrink', 'flex-basis'], longs)), 'flexitem',
-                ('flex:unitless-zero-spelling', ctl) if ctl else None)
+        return fam, 'flex', 'flex:' + text, list(zip(['flex-grow', 'flex-shrink', 'flex-basis'], longs)), 'flexitem'
     if fam == 'columns':
         w = rng.choice([x for x in P.get('column-width', True) if x.lower() != 'auto'])
         c = rng.choice([x for x in P.get('column-count', True) if x.lower() != 'auto'])
@@ -1198,16 +1191,6 @@ def gen_pair(rng, P, gr, bad_pool):
         a, b = place(rng, da, db, cont, ctx, where=where)
         case = dict(kind='var', sig='meta:var:%s' % form, a=a, b=b, note='%s == %s' % (da, db))
         # F130 fixed: a fallback keeps its commas, judged like any other pair
-        if 'url(' in v.lower() and prop in gr.reg['properties'] and control is None:
-            # F129: a relative url() in a longhand's var() loses the base URL - control: the same with absolute urls
-            absu = lambda t: re.sub(r'url\(\s*(["\']?)(?![a-zA-Z][-+.a-zA-Z0-9]*:)', r'url(\1file:///nonexistent/', t)
-            control = ('var:url-longhand-base', absu(da), absu(db))
-        if control:
-            ccont = cont
-            if control[0] == 'var:url-longhand-base':
-                ccont = absu(cont)
-            ca, cb = place(rng, control[1], control[2], ccont, ctx, where=where)
-            case['control'] = dict(a=ca, b=cb, sig=control[0])
         return case
     if kind == 'bad-decl':
         good = []
@@ -1309,7 +1292,7 @@ def cases_render(rng, gr, n):
         cont = more[0] if more else ''
         case = dict(fn='render_pair', kind='probe', sig=sig or 'render-probe:%s' % da, a=doc(cont, '', '#t{%s}' % da),
                     b=doc(cont, '', '#t{%s}' % db), note='%s == %s (%s)' % (da, db, why))
-        if more:
+        if len(more) > 1:
             case['control'] = dict(a=doc(cont, '', '#t{%s}' % more[1]), b=doc(cont, '', '#t{%s}' % more[2]), sig=more[3])
         fixed.append(case)
     # the witnesses of the open crash findings F126-F128 (a pair of identical documents)
@@ -1691,7 +1674,7 @@ def token_desc(text):
         return 0, Fraction(t.representation) if 'e' not in t.representation.lower() else Fraction(t.value), t.int_value is not None
     if t.type == 'percentage':
         return 2, Fraction(t.value), False
-    if t.type == 'dimension' and t.unit in ('px', 'pt', 'pc', 'in', 'cm', 'mm', 'q', 'em', 'ex', 'ch', 'rem'):
+    if t.type == 'dimension' and t.lower_unit in ('px', 'pt', 'pc', 'in', 'cm', 'mm', 'q', 'em', 'ex', 'ch', 'rem'):
         return 1, Fraction(t.value), False
     return None
 
@@ -1736,10 +1719,6 @@ def cases_ranges(rng, spec, thorough):
     return direct, pairs
 
 
-def flex_negative(p, t):
-    return p in ('flex-grow', 'flex-shrink') and token_desc(t) and token_desc(t)[0] == 0 and token_desc(t)[1] < 0
-
-
 def stream_ranges(run, spec, direct, douts, pairs, pouts):
     mism, seen = [], set()
     accepted_n = 0
@@ -1754,7 +1733,7 @@ def stream_ranges(run, spec, direct, douts, pairs, pouts):
         if accepted != impl:
             mism.append((p, t, accepted))
         if accepted and not css:
-            sig = 'invalid-accepted' if flex_negative(p, t) else 'range:%s' % p
+            sig = 'range:%s' % p
             if sig not in seen:
                 seen.add(sig)
                 fail(run, '`%s: %s` is outside the grammar of %s and is accepted (as %s) instead of dropped with a warning'
@@ -1775,7 +1754,7 @@ def stream_ranges(run, spec, direct, douts, pairs, pouts):
             continue
         if not o['same']:
             differ += 1
-            sig = 'invalid-accepted' if flex_negative(c['prop'], c['token']) else c['sig']
+            sig = c['sig']
             if sig not in seen:
                 seen.add(sig)
                 fail(run, 'an out-of-range declaration does not vanish: %s: %s' % (c['note'], o['diff']),
@@ -1800,8 +1779,8 @@ def stream_ranges(run, spec, direct, douts, pairs, pouts):
 SPEC_PROBES = [
     # valid
     ('margin: 1px 2px', True, None), ('margin: auto', True, None), ('width: 1in', True, None), ('width: 0', True, None),
-    ('width: 1IN', True, 'valid-dropped'), ('width: 5PX', True, 'valid-dropped'), ('margin: 1Em 2PT', True, 'valid-dropped'),
-    ('outline: invert solid 2px', True, 'valid-dropped'), ('outline: red solid 2px', True, None),
+    ('width: 1IN', True, None), ('width: 5PX', True, None), ('margin: 1Em 2PT', True, None),
+    ('outline: invert solid 2px', True, None), ('outline: red solid 2px', True, None),
     ('flex: 1 0', True, None), ('flex: 2 3 10px', True, None), ('flex: 10px 2 3', True, None), ('flex: none', True, None),
     ('flex-grow: 0', True, None), ('flex-grow: 1.5', True, None), ('color: RED', True, None), ('COLOR: red', True, None),
     ('border-radius: 1px / 2px', True, None), ('border-radius: 1px 2px 3px 4px / 5px', True, None),
@@ -1815,10 +1794,10 @@ SPEC_PROBES = [
     ('text-decoration-thickness: from-font', True, None), ('text-decoration-thickness: auto', True, None),
     ('--x: anything [goes] (here)', True, None), ('--x:', False, None), ('width: var(--x)', True, None),
     # invalid
-    ('margin: 1px 2px 3px 4px 5px', False, None), ('margin: inherit 1px', False, 'invalid-accepted'),
-    ('margin: 1px initial', False, 'invalid-accepted'), ('padding: -1px', False, None), ('width: -1px', False, None),
-    ('flex: 2 10px 3', False, 'invalid-accepted'), ('flex-grow: -1', False, 'invalid-accepted'),
-    ('flex-shrink: -1', False, 'invalid-accepted'), ('flex: 1 2 3 4', False, None), ('border-radius: 1px /', False, None),
+    ('margin: 1px 2px 3px 4px 5px', False, None), ('margin: inherit 1px', False, None),
+    ('margin: 1px initial', False, None), ('padding: -1px', False, None), ('width: -1px', False, None),
+    ('flex: 2 10px 3', False, None), ('flex-grow: -1', False, None),
+    ('flex-shrink: -1', False, None), ('flex: 1 2 3 4', False, None), ('border-radius: 1px /', False, None),
     ('border-radius: / 1px', False, None), ('border-radius: 1px / 2px / 3px', False, None),
     ('border-radius: 1px 2px 3px 4px 5px', False, None), ('border-top: red red', False, None),
     ('border-top: 1px 2px', False, None), ('columns: 1px 2px', False, None), ('columns: 2 3', False, None),
@@ -1833,24 +1812,30 @@ SPEC_PROBES = [
 
 # pairs that must render alike; the signature applies to these exact pairs only
 RENDER_PROBES = [
-    ('--a:initial;width:var(--a, 7px)', 'width:7px', 'valid-dropped',
+    # F198 (open): the signature applies to this exact pair
+    ('--a:initial;width:var(--a, 7px)', 'width:7px', 'var:initial-custom-property-fallback',
      'a custom property set to `initial` is the guaranteed-invalid value: var() takes the fallback'),
-    ('width:3px;width:var(--x,)', 'width:auto', 'valid-dropped',
+    ('width:3px;width:var(--x,)', 'width:auto', None,
      'var(--x,) has an empty fallback: the declaration is valid, and invalid at computed-value time (= unset)'),
-    # the witnesses of F129-F132 with their mechanism test: (a, b, None, why, container, control a, control b, signature)
+    ('width:3px;width:var(--x 7px)', 'width:3px', None, 'var() without a comma before the fallback is not var(): dropped'),
+    # (a, b, signature, why[, container, control a, control b, control signature])
     ('--x:url(pattern.png);background-image:var(--x)', 'background-image:url(pattern.png)', None,
-     'a relative url() through var() in a longhand', '',
-     '--x:url(file:///nonexistent/pattern.png);background-image:var(--x)',
-     'background-image:url(file:///nonexistent/pattern.png)', 'var:url-longhand-base'),
+     'a relative url() through var() in a longhand'),
+    ('--x:url(pattern.png);list-style-image:var(--x)', 'list-style-image:url(pattern.png)', None,
+     'a relative url() through var() in a longhand'),
     ('font-family:var(--u, weasyprint, serif)', 'font-family:weasyprint, serif', None, 'a fallback with commas'),
     ('--a-b:1px;--a_b:2px;width:var(--a-b)', 'width:1px', None, '--a-b is not --a_b'),
     ('--a-b:1px;--a_b:2px;width:var(--a_b)', 'width:2px', None, '--a_b is not --a-b'),
-    ('flex:1 0.0', 'flex-grow:1;flex-shrink:0;flex-basis:0px', None, 'a unitless zero is a flex factor', 'display:flex;',
-     'flex:1 0', 'flex-grow:1;flex-shrink:0;flex-basis:0px', 'flex:unitless-zero-spelling'),
-    ('--x:1px var(--x);width:var(--x, 7px)', 'width:7px', None, 'a property of a cycle is invalid: the fallback', '',
-     '--x:1px var(--x);width:var(--x, 7px)', 'width:1px', 'var:cycle-erased'),
-    ('--x:var(--y);--y:var(--x);width:var(--x, 7px)', 'width:7px', None, 'a cycle of two: the fallback', '',
-     '--x:var(--y);--y:var(--x);width:var(--x, 7px)', 'width:auto', 'var:cycle-erased'),
+    ('flex:1 0.0', 'flex-grow:1;flex-shrink:0;flex-basis:0px', None, 'a unitless zero is a flex factor', 'display:flex;'),
+    ('flex:0e0 1', 'flex-grow:0;flex-shrink:1;flex-basis:0px', None, 'a unitless zero is a flex factor', 'display:flex;'),
+    ('--x:1px var(--x);width:var(--x, 7px)', 'width:7px', None, 'a property of a cycle is invalid: the fallback'),
+    ('--x:var(--y);--y:var(--x);width:var(--x, 7px)', 'width:7px', None, 'a cycle of two: the fallback'),
+    ('width:9px;--x:var(--x);width:var(--x)', 'width:auto', None, 'a cycle without fallback: unset'),
+    ('padding:7px;--p:solid;padding:2px var(--p)', 'padding:0', None, 'invalid after substitution: all four sides unset'),
+    ('margin:3px;margin:inherit 1px', 'margin:3px', None, 'inherit among several components is invalid'),
+    ('flex:3 3 3px;flex:2 10px 3', 'flex:3 3 3px', None, 'a basis between the flex factors is invalid', 'display:flex;'),
+    ('width:9px;width:1IN', 'width:96px', None, 'units are case-insensitive'),
+    ('outline:invert solid 2px', 'outline-color:invert;outline-style:solid;outline-width:2px', None, 'outline: invert'),
     ('margin-left:var(--gap, 10px);padding-left:var(--gap, 20px)', 'margin-left:10px;padding-left:20px', None,
      'each reference its own fallback'),
     ('margin:0 var(--gap, 30px) 0 var(--gap, 5px)', 'margin:0 30px 0 5px', None, 'each reference its own fallback'),
@@ -1887,7 +1872,7 @@ def stream_probes(run, cases, outs):
     run.stream_info('spec-probes', deviations=bad,
                     rule='%d hand-written declarations whose validity follows from the CSS specifications (boundaries of '
                          'the modelled shorthands, signs, units, counts); accepted iff valid. The witnesses of the open '
-                         'findings invalid-accepted / valid-dropped are matched by their exact text' % len(SPEC_PROBES))
+                         'findings are matched by their exact text' % len(SPEC_PROBES))
 
 
 # ================================================================================ check
